@@ -524,6 +524,13 @@ pub fn parse_byte_string_literal(s: &str) -> Result<Vec<u8>, String> {
                     return Err("dangling backslash".into());
                 }
                 match body[i] {
+                    b'\n' => {
+                        // string continuation (Rust reference): backslash + newline skips the newline and all
+                        // following whitespace (space, \t, \n, \r) up to the next non-whitespace character
+                        while i + 1 < body.len() && matches!(body[i + 1], b' ' | b'\t' | b'\n' | b'\r') {
+                            i += 1;
+                        }
+                    }
                     b'n' => out.push(b'\n'),
                     b'r' => out.push(b'\r'),
                     b't' => out.push(b'\t'),
@@ -598,7 +605,7 @@ fn c15_one(x: &[u8], which: &str, dbg: &str, lx: &str, ux: &str, rep: &mut Repor
 /// Width, precision, fill, alignment, sign, `#` and `0` flags must not change any of the three outputs:
 /// the Debug output is *always* a literal that decodes to the contents, hex is *exactly* two digits per byte.
 fn c15_flags(x: &[u8], which: &str, b: &dyn Fn(u8) -> String, plain: (&str, &str, &str), rep: &mut Report) {
-    for k in 0..10u8 {
+    for k in 0..12u8 {
         rep.evaluations += 1;
         let got = match oracle::subject_try(|| b(k)) {
             Ok(g) => g,
@@ -617,9 +624,11 @@ fn c15_flags(x: &[u8], which: &str, b: &dyn Fn(u8) -> String, plain: (&str, &str
             6 => ("{:.1x}", plain.1),
             7 => ("{:#X}", plain.2),
             8 => ("{:08X}", plain.2),
-            _ => ("{:+x}", plain.1),
+            9 => ("{:+x}", plain.1),
+            10 => ("{:#?}", plain.0),
+            _ => ("{:#14?}", plain.0),
         };
-        if k <= 3 {
+        if k <= 3 || k >= 10 {
             // Debug with flags: must still be a valid literal decoding to the contents
             match parse_byte_string_literal(&got) {
                 Ok(v) if v == x => {}
@@ -669,7 +678,7 @@ fn c15_universe(tier: &str) -> Vec<Vec<u8>> {
     let mut flens: Vec<usize> = (1..=80).collect();
     flens.extend([96usize, 128, 129, 256, 1024]);
     for &n in &flens {
-        for &f in &[0x00u8, 0x01, 0x0f, 0x10, 0x7f, 0x80, 0xff, b'a'] {
+        for &f in &[0x00u8, 0x01, 0x0f, 0x10, 0x7f, 0x80, 0xff, b'a', b' ', b'\t'] {
             v.push(vec![f; n]);
             if n >= 4 && (n <= 40 || tier == "thorough") {
                 for pos in [0, n / 2, n - 1] {
@@ -751,7 +760,9 @@ pub fn run_c15(tier: &str, parity_odd: bool, shard: usize, nshards: usize, rep: 
                         6 => format!("{:.1x}", b),
                         7 => format!("{:#X}", b),
                         8 => format!("{:08X}", b),
-                        _ => format!("{:+x}", b),
+                        9 => format!("{:+x}", b),
+                        10 => format!("{:#?}", b),
+                        _ => format!("{:#14?}", b),
                     }
                 };
                 c15_flags(x, name, &f, (&d, &l, &u), rep);
@@ -793,7 +804,9 @@ pub fn run_c15(tier: &str, parity_odd: bool, shard: usize, nshards: usize, rep: 
                         6 => format!("{:.1x}", m),
                         7 => format!("{:#X}", m),
                         8 => format!("{:08X}", m),
-                        _ => format!("{:+x}", m),
+                        9 => format!("{:+x}", m),
+                        10 => format!("{:#?}", m),
+                        _ => format!("{:#14?}", m),
                     }
                 };
                 c15_flags(x, name, &f, (&d, &l, &u), rep);
